@@ -107,6 +107,8 @@ import functools as _functools
 PURE_FUNCS.update({'functools.reduce': _functools.reduce, 'reduce': _functools.reduce, 'collections.namedtuple': collections.namedtuple, 'namedtuple': collections.namedtuple})
 import operator as _operator
 import heapq as _heapq
+PURE_FUNCS.update({'heapq.heappush': _heapq.heappush, 'heapq.heappop': _heapq.heappop, 'heapq.heapify': _heapq.heapify, 'heappush': _heapq.heappush, 'heappop': _heapq.heappop,
+                   'heapq.heappushpop': _heapq.heappushpop, 'heapq.heapreplace': _heapq.heapreplace})      # on lists the interpreter owns
 PURE_FUNCS.update({'heapq.nsmallest': _heapq.nsmallest, 'heapq.nlargest': _heapq.nlargest, 'nsmallest': _heapq.nsmallest, 'nlargest': _heapq.nlargest})
 PURE_FUNCS.update({'itertools.groupby': _groupby, 'groupby': _groupby, 'operator.itemgetter': _operator.itemgetter, 'itemgetter': _operator.itemgetter})
 PURE_FUNCS.update({'windowed': _windowed, 'more_itertools.windowed': _windowed, 'np.searchsorted': _searchsorted, 'numpy.searchsorted': _searchsorted})
